@@ -29,6 +29,19 @@ PROBE_BASE = 1000000
 COQ_IMPORTS = ["LdkV.Prim.U64", "LdkV.Gen.ConstsC03", "LdkV.Model.Outbound"]
 
 
+def _cleanup_eval(ctx):
+    """scratch files of this process' coq_eval calls (their names carry the pid so that two
+    concurrent runs of the same check do not overwrite each other's shards)"""
+    d = os.path.join(ctx.tmp, "coq")
+    tag = "_%d_" % os.getpid()
+    try:
+        for f in os.listdir(d):
+            if tag in f:
+                os.remove(os.path.join(d, f))
+    except OSError:
+        pass
+
+
 def generate(ctx):
     text, meta = consts_lite.extract(core.REPO, CONST_ITEMS, FEATURES)
     core.write_if_changed(os.path.join(core.COQ, "Gen", "ConstsC03.v"), text)
@@ -603,7 +616,7 @@ def functional(ctx, model_ok):
     dis = []
     if model_ok:
         exprs = ["run_show init [%s]" % "; ".join(coq_op(o) for o in ops) for ops, _ in seqs]
-        vals = ctx.coq_eval("corr_outbound", COQ_IMPORTS, exprs, shards=min(16, len(exprs)), timeout=1500)
+        vals = ctx.coq_eval("corr_outbound_%d" % os.getpid(), COQ_IMPORTS, exprs, shards=min(16, len(exprs)), timeout=1500)
         for si, ((ops, results), v) in enumerate(zip(seqs, vals)):
             model = parse_coq_lll(v)
             for i, (op, res, m) in enumerate(zip(ops, results, model)):
@@ -715,6 +728,7 @@ def run(ctx):
     if broken and not judge_fails and not e2e_fails:
         ctx.violation("C03 no longer shown: " + ("proof" if not proved else "model/implementation correspondence") + " broken",
                       {"broken": broken, "search": "implementation judge over %d operations in %d sequences + e2e scenarios found no failing input" % (nfun, ctx.coverage.get("functional_sequences", 0))}, False)
+    _cleanup_eval(ctx)
     ctx.write_evidence(LEVEL)
 
 
